@@ -46,6 +46,13 @@ def _spec(case: dict) -> dict:
             for s in sp["stages"]:
                 s.setdefault("ctx", {})["_max_jumps"] = mj
     sp["name"] = f"{shape}{case.get('body', '')}_t{times}_mj{mj}{level}"
+    # the order in which stages are listed (= stored, = iterated by the engine) is not
+    # promised to be topological
+    listing = case.get("listing", "topo")
+    if listing == "reversed":
+        sp["stages"] = list(reversed(sp["stages"]))
+    elif listing == "shuffled":
+        random.Random(case["seed"]).shuffle(sp["stages"])
     return sp
 
 
@@ -63,7 +70,7 @@ def gen_cases(tier: str, seed: int) -> list[dict]:
                     if times > 13 and times != 10**6:
                         continue
                     for order in ("fifo", "random", "hold"):
-                        cases.append({"shape": shape, "body": rng.randint(2, 4), "times": times, "max_jumps": mj, "level": rng.choice(["wf", "stage"]), "order": order, "seed": rng.randrange(1 << 30)})
+                        cases.append({"shape": shape, "body": rng.randint(2, 4), "times": times, "max_jumps": mj, "level": rng.choice(["wf", "stage"]), "order": order, "listing": rng.choice(["topo", "reversed", "shuffled"]), "seed": rng.randrange(1 << 30)})
     return cases
 
 
@@ -188,7 +195,7 @@ def run_case(case: dict) -> dict:
                 out.append(viol("C15/per-iteration-count", f"{ref}.t{ti}: executions per iteration {per}, expected {want} ({effective} jumps)"))
     keys = []
     if times > 0:
-        keys.append(f"{case['shape']}:{case.get('body')}:{min(times, 99)}:{case['max_jumps']}:{case['level']}:{case['order']}")
+        keys.append(f"{case['shape']}:{case.get('body')}:{min(times, 99)}:{case['max_jumps']}:{case['level']}:{case['order']}:{case.get('listing')}")
     sample = None
     if times == 2 and case["shape"] == "side":
         sample = {"case": case, "effective_jumps": effective, "executions": {f"{k[0]}.t{k[1]}@{k[2]}": v for k, v in sorted(counts.items())}, "final": {k: v["status"] for k, v in stages.items()}}
